@@ -338,6 +338,7 @@ func c04API(c *Ctx) {
 	var reply proto.Message
 	var sendHeaderFirst bool
 	var fail error
+	var genSent proto.Message // what the Gen handler returned, cloned at return time
 	var mdContentType string // handler header metadata under the protocol's own key: must never become the response's Content-Type
 	h := func(ctx context.Context, in *dynamicpb.Message) (proto.Message, error) {
 		if mdContentType != "" {
@@ -365,6 +366,19 @@ func c04API(c *Ctx) {
 		}()},
 		{Name: "RespHttpBody", In: "Req", Out: "Reply", Unary: h, Rule: respBody2},
 		{Name: "Raw", In: "Req", Out: "google.api.HttpBody", Unary: h, Rule: getRule("/c04/raw")},
+		// a GENERATED reply type with nested messages, which the handler sizes (fingerprint, log line,
+		// metric) before it finishes filling it in: what is sent is the message as it is WHEN sent
+		{Name: "Gen", In: "Req", Out: "google.api.HttpRule", Rule: getRule("/c04/gen/{name}"),
+			Unary: func(ctx context.Context, in *dynamicpb.Message) (proto.Message, error) {
+				r := &annotations.HttpRule{Selector: "sel", Pattern: &annotations.HttpRule_Custom{Custom: &annotations.CustomHttpPattern{Kind: "k", Path: "p"}},
+					AdditionalBindings: []*annotations.HttpRule{{Selector: "a", Body: "b"}}}
+				_ = proto.Size(r)
+				name := in.Get(in.Descriptor().Fields().ByName("name")).String()
+				r.GetCustom().Path = strings.Repeat(name, 20)
+				r.AdditionalBindings[0].ResponseBody = name + name
+				genSent = proto.Clone(r)
+				return r, nil
+			}},
 		// registered AFTER the service above: every later registration works on a copy of the routing state
 		{Service: "Late", Name: "L", In: "Req", Out: "Reply", Unary: h, Rule: getRule("/c04/late/{name}")},
 		{Service: "Later", Name: "L", In: "Req", Out: "Reply", Unary: h, Rule: getRule("/c04/nested/{name}/later")},
@@ -583,6 +597,28 @@ func c04API(c *Ctx) {
 				ct := rec.Header().Get("Content-Type")
 				if err := decode(ct, body, got); rec.Code != 200 || err != nil || !proto.Equal(got, want) {
 					c.SpecFail("api-response-body", in+" selector=nested.child", fmt.Sprintf("%d ct=%q err=%v body=%s", rec.Code, ct, err, trunc(body, 80)), prototextS(want), "C04/api/response-body-dotted", "a dotted response_body selector does not yield exactly the selected field")
+				}
+			}
+		}
+
+		// ---- a generated reply that was sized before it was finished
+		if fail == nil && i%5 == 0 {
+			for _, accept := range []string{"application/protobuf", "application/json", "application/octet-stream"} {
+				genSent = nil
+				r := httptest.NewRequest("GET", fmt.Sprintf("/c04/gen/n%d", i%7), nil)
+				r.Header.Set("Accept", accept)
+				rec, pn := fx.Serve(r)
+				gin := fmt.Sprintf("generated reply sized by the handler before its last edits; Accept=%s", accept)
+				c.Eval("api-generated-reply", gin, true)
+				got := &annotations.HttpRule{}
+				var derr error
+				if accept == "application/json" {
+					derr = protojson.Unmarshal(rec.Body.Bytes(), got)
+				} else {
+					derr = proto.Unmarshal(rec.Body.Bytes(), got)
+				}
+				if pn != nil || rec.Code != 200 || derr != nil || genSent == nil || !proto.Equal(got, genSent) {
+					c.SpecFail("api-generated-reply", gin, fmt.Sprintf("%d panic=%v decode-error=%v body=%s", rec.Code, pn, derr, trunc(rec.Body.Bytes(), 80)), "200 and exactly the message the handler returned", "C04/api/generated-reply-not-as-returned", "a reply that was sized before the handler finished it is not encoded as it is when sent")
 				}
 			}
 		}
